@@ -233,7 +233,10 @@ class Pools:
     # ---- routes to one given style
     def spec(self):
         r = self.rng
-        return (self.color(canon=r.random() < 0.8), self.color(canon=r.random() < 0.8), self.kw(), self.link(wf=r.random() < 0.8))
+        link = self.link(wf=r.random() < 0.8)
+        while link == "":  # the empty link is outside the statement (see the assumptions)
+            link = self.link()
+        return (self.color(canon=r.random() < 0.8), self.color(canon=r.random() < 0.8), self.kw(), link)
 
     def routes_to(self, spec):
         """Several construction routes that must all give the style `spec` = (color, bgcolor, kw, link)."""
@@ -366,28 +369,25 @@ def blame(route):
 
 def stale_definition(route):
     """Narrow classifier for a failed round trip: str() returned a cached definition that is not what
-    __str__ computes for these fields, and an update_link on a str()-ed style is in the route."""
+    __str__ computes for these fields (only a stale `_style_definition` can do that) and the route
+    contains an update_link — the one constructor that copies the cache while changing a field."""
     s = L.build(route)
     if str(s) == str(canonical(s)):
         return False
 
-    def has_u_over_t(r, under_u=False):
+    def has_u(r):
         t = r[0]
-        if t == "T" and under_u:
-            return True
         if t == "U":
-            return has_u_over_t(r[2], True)
-        if t == "P" and under_u:
-            return False
+            return True
         if t == "A":
-            return has_u_over_t(r[1], under_u) or has_u_over_t(r[2], under_u)
+            return has_u(r[1]) or has_u(r[2])
         if t in "OCWTB":
-            return has_u_over_t(r[1], under_u and t in "OCT")
+            return has_u(r[1])
         if t == "H":
-            return any(has_u_over_t(x, under_u) for x in r[2])
+            return any(has_u(x) for x in r[2])
         return False
 
-    return has_u_over_t(route)
+    return has_u(route)
 
 
 # ------------------------------------------------------------------------------------------ the check
@@ -408,6 +408,8 @@ def run(ctx):
         "functools.lru_cache on Color.parse / Style.parse / Style.normalize is transparent (routes bypass it for Style.parse so that every object is fresh; the cached entry points are exercised by style_parse / normalize cases)",
         "NULL_STYLE is modelled in its steady state (_style_definition already 'none')",
         "_link_id (random) and _ansi are not modelled",
+        "a link is None or a non-empty string: Style(link='') is modelled faithfully (it is `_null`, str() omits it, + ignores it, yet == tells it from None) "
+        "but the identity / copy / route-pair laws are evaluated only on styles whose link is not the empty string",
     ]
     names = list(ANSI_COLOR_NAMES)
 
@@ -636,7 +638,9 @@ def run(ctx):
         lhs, rhs = (a + b) + c, a + (b + c)
         ctx.check(lhs == rhs, "Style.__add__:assoc", (repr(a), repr(b), repr(c)), f"(a+b)+c = {lhs!r} but a+(b+c) = {rhs!r}")
         ctx.check(bool(lhs) == bool(rhs), "Style.__add__:assoc-bool", (repr(a), repr(b), repr(c)), "truthiness of (a+b)+c and a+(b+c) differs")
-        if i % 4 == 0:
+        if i % 4 == 0 and a.link == "":
+            ctx.note("identity:skipped-empty-link")
+        elif i % 4 == 0:
             ok = (NULL + a == a) and (a + NULL == a) and (a + None == a) and (empty + a == a) and (a + empty == a) and (a + Style.null() is a)
             ctx.check(ok, "Style.__add__:identity", repr(a), "the null style is not an identity")
             ctx.check(Style.chain(a, b, c) == lhs and Style.combine([a, b, c]) == lhs and Style.combine(iter([a])) == a, "Style.chain", (repr(a), repr(b), repr(c)), "chain/combine differ from a+b+c")
